@@ -729,27 +729,45 @@ def system_level(ctx, vh, stats):
                                                  "expected": "init with a configuration the documents forbid fails and writes nothing"})
                 s.call("drop", h="F")
 
-        # a repository whose layout configuration is forbidden: opened with no layout assumed
-        sc = hist.Scratch(ctx, "reopen")
-        layout = {"ext": EXTS["0004"][1], "config": None}
-        s.call("init", h="R", root=sc.root, staging=None, spec="1.1", layout=layout)
-        s.call("drop", h="R")
-        cfgfile = os.path.join(sc.root, "extensions", EXTS["0004"][1], "config.json")
-        with open(cfgfile, "w") as f:
-            json.dump({"extensionName": EXTS["0004"][1], "tupleSize": 3, "numberOfTuples": 0}, f)
-        r = s.call("open", h="R", root=sc.root, staging=None)
-        r1 = s.call(dict(cmd="new", h="R", id="o1", spec="1.1", alg="sha512", cdir="content", pad=0))
-        src = sc.source_file("r.txt", b"r")
-        s.call(dict(cmd="cp_ext", h="R", id="o1", src=[src], dst="f.txt", recursive=False))
-        r3 = s.call(dict(cmd="commit", h="R", id="o1", name="u", address="mailto:u@example.org", message="m",
-                         created="2021-03-01T10:00:00Z", pretty=False))
-        stats["sys_reopen_forbidden"] += 1
-        ctx.count(("sys-reopen",), nontrivial=True)
-        if "ok" in r3 or hist.find_object_roots(sc.root):
-            ctx.violation("impl-violation", {"input": {"level": "open", "config.json": "tupleSize 3, numberOfTuples 0"},
-                          "observed": {"open": r, "new": r1, "commit": r3, "objects": hist.find_object_roots(sc.root)},
-                          "expected": "with a forbidden config.json no layout is assumed: a commit without an explicit object root is refused"})
-        s.call("drop", h="R")
+        # a repository whose layout configuration is forbidden or unreadable: opened with no layout assumed (an object
+        # committed under the original non-default configuration is still found - by scanning -, and a commit without
+        # an explicit object root is refused and writes nothing)
+        good = {"extensionName": EXTS["0004"][1], "digestAlgorithm": "sha256", "tupleSize": 2, "numberOfTuples": 2, "shortObjectRoot": False}
+        broken = [("tupleSize 3, numberOfTuples 0", json.dumps({"extensionName": EXTS["0004"][1], "tupleSize": 3, "numberOfTuples": 0}).encode()),
+                  ("empty file", b""), ("white space only", b" \n"), ("truncated JSON", b'{"extensionName": "0004-hashed'),
+                  ("JSON null", b"null"), ("JSON array", json.dumps([EXTS["0004"][1], "sha256", 2, 2, False]).encode()),
+                  ("another extension's name", json.dumps(dict(good, extensionName=EXTS["0003"][1])).encode())]
+        for bi, (what, data) in enumerate(broken):
+            sc = hist.Scratch(ctx, "reopen%d" % bi)
+            layout = {"ext": EXTS["0004"][1], "config": json.dumps(good)}
+            s.call("init", h="R", root=sc.root, staging=None, spec="1.1", layout=layout)
+            src0 = sc.source_file("first.txt", b"first")
+            for cmd in (dict(cmd="new", h="R", id="foobar", spec="1.1", alg="sha512", cdir="content", pad=0),
+                        dict(cmd="cp_ext", h="R", id="foobar", src=[src0], dst="f.txt", recursive=False),
+                        dict(cmd="commit", h="R", id="foobar", name="u", address="mailto:u@example.org", message="m",
+                             created="2021-03-01T10:00:00Z", pretty=False)):
+                s.call(cmd)
+            s.call("drop", h="R")
+            had = hist.find_object_roots(sc.root)
+            cfgfile = os.path.join(sc.root, "extensions", EXTS["0004"][1], "config.json")
+            with open(cfgfile, "wb") as f:
+                f.write(data)
+            r = s.call("open", h="R", root=sc.root, staging=None)
+            g = s.call("get_object", h="R", id="foobar", version=None)
+            r1 = s.call(dict(cmd="new", h="R", id="o1", spec="1.1", alg="sha512", cdir="content", pad=0))
+            src = sc.source_file("r.txt", b"r")
+            s.call(dict(cmd="cp_ext", h="R", id="o1", src=[src], dst="f.txt", recursive=False))
+            r3 = s.call(dict(cmd="commit", h="R", id="o1", name="u", address="mailto:u@example.org", message="m",
+                             created="2021-03-01T10:00:00Z", pretty=False))
+            stats["sys_reopen_forbidden"] += 1
+            ctx.count(("sys-reopen", what), nontrivial=True)
+            now = hist.find_object_roots(sc.root)
+            if "ok" in r3 or sorted(now) != sorted(had) or len(had) != 1 or "ok" not in g:
+                ctx.violation("impl-violation", {"input": {"level": "open", "config.json": what},
+                              "observed": {"open": r, "get_object of the object committed before": hist.res_class(g), "new": r1,
+                                           "commit": r3, "objects before": had, "objects after": now},
+                              "expected": "with an unusable config.json no layout is assumed: the existing object is still found, a commit without an explicit object root is refused and writes nothing"})
+            s.call("drop", h="R")
     finally:
         s.close()
 
